@@ -1272,6 +1272,14 @@ def genhkl_base(unit_cell, sysconditions, sintlmin, sintlmax, crystal_system='tr
     if Laue_class == '-3' and cell_choice=='rhombohedral':
         sintl_scale = 1.1
 
+    # A scan line is followed until it leaves the box |h_i| <= 2*sintlmax*a_i that
+    # encloses the sphere of radius sintlmax (h_i = g.a_i). Stopping at the first
+    # point with sintl > sintlmax is only safe for orthogonal metrics: on oblique
+    # axes sintl is not monotonous along a line and whole families were missed.
+    hkl_limit = [int(2*sintlmax*sintl_scale*float(unit_cell[j])) + 1 for j in range(3)]
+    def inside_box(hkl):
+        return abs(hkl[0]) <= hkl_limit[0] and abs(hkl[1]) <= hkl_limit[1] and abs(hkl[2]) <= hkl_limit[2]
+
     for i in range(len(segm)):
         segn = i
         # initialize the identifiers
@@ -1297,7 +1305,7 @@ def genhkl_base(unit_cell, sysconditions, sintlmin, sintlmax, crystal_system='tr
                     HNEW = HLAST + segm[segn, 1, :]
                     sintlH = sintl(unit_cell, HNEW)
                     #if (sintlH >= sintlmin) and (sintlH <= sintlmax):
-                    if sintlH <= sintlmax*sintl_scale:
+                    if inside_box(HNEW):
                         HLAST = HNEW
                     else: 
                         htest = 1
@@ -1307,7 +1315,7 @@ def genhkl_base(unit_cell, sysconditions, sintlmin, sintlmax, crystal_system='tr
                 HLAST = HSAVE
                 HNEW  = HLAST
                 sintlH   = sintl(unit_cell, HNEW)
-                if sintlH > sintlmax*sintl_scale:
+                if not inside_box(HNEW):
                     ktest = 1
                 htest = 0
 
@@ -1316,7 +1324,7 @@ def genhkl_base(unit_cell, sysconditions, sintlmin, sintlmax, crystal_system='tr
             HLAST = HSAVE1
             HNEW = HLAST
             sintlH = sintl(unit_cell, HNEW)
-            if sintlH > sintlmax*sintl_scale:
+            if not inside_box(HNEW):
                 ltest = 1
             ktest = 0
 
